@@ -451,11 +451,11 @@ def run(ctx, anchors=None):
         ctx.inst(bool(good), "R01.5", "balance-check-at-switch:" + key, stepper.loc(swn),
                  "the switch is dominated by a vfExec.empty() test whose non-empty edge rejects",
                  "the script switch `%s` is not preceded by a rejecting vfExec.empty() test: a conditional opened in one script can be closed by the next" % key)
-        for fld in ("pc", "pend", "pbegincodehash", "nOpCount"):
+        for fld in ("pc", "pend", "pbegincodehash", "nOpCount", "altstack"):
             ws = writes_field(fld)
             ctx.inst(bool(ws) and (any(w is swn for w in ws) or scfg.must_pass_after(swn, ws)), "R01.5", "reinit:%s:%s" % (fld, key), stepper.loc(swn),
                      "%s is re-initialised after the switch on every path" % fld,
-                     "after the script switch `%s` the stepper can return without re-initialising %s" % (key, fld))
+                     "after the script switch `%s` the stepper can return without re-initialising %s%s" % (key, fld, " (every script starts with an empty alt stack: EvalScript keeps it local)" if fld == "altstack" else ""))
 
     # ---- R01.7
     gate = None
@@ -585,6 +585,7 @@ def run(ctx, anchors=None):
 
 
 MUTANTS = [
+    dict(name="altstack-survives-the-script-switch", file="debugger/interpreter.cpp", find="        env.altstack.clear(); // every script starts with an empty alt stack\n        if (", replace="        if (", expect=["R01.5:reinit:altstack"]),
     dict(name="toggle-top-clears-lower-false", file="debugger/see.h", regex=True, find=r"        \} else \{\n            // There is a false value, but not on top\..*?\n        \}\n", replace="        } else {\n            m_first_false_pos = NO_FALSE;\n        }\n", expect=["R01.8:refines:toggle_top"]),
     dict(name="pop-keeps-popped-false", file="debugger/see.h", find="        if (m_first_false_pos == m_stack_size) {", replace="        if (m_first_false_pos == m_stack_size + 1) {", expect=["R01.8:refines:pop_back"]),
     dict(name="push-false-not-recorded", file="debugger/see.h", find="        if (m_first_false_pos == NO_FALSE && !f) {", replace="        if (m_first_false_pos == NO_FALSE && !f && m_stack_size > 0) {", expect=["R01.8:refines:push_back"]),
